@@ -17,6 +17,10 @@ enum Op {
     AddT { task: u64, rq: u32, prio: i32 },
     Busy { task: u64, worker: u32, started: bool },
     Cfg { reserve: u32, max: u32 },
+    AddWT { id: u32, tl: Option<u64>, units: Vec<u32> },
+    AddRqV { variants: Vec<(Vec<(u32, u64)>, u64)> },
+    Block { worker: u32, rq: u32, variant: u32 },
+    VDecide,
     Prio { vals: Vec<i32> },
     Take { rq: u32, count: u32 },
     State,
@@ -39,6 +43,30 @@ fn parse_op(line: &str) -> Option<Op> {
                 })
                 .collect(),
         },
+        "ADDWT" => Op::AddWT {
+            id: p(t[1]) as u32,
+            tl: if t[2] == "-" { None } else { Some(p(t[2])) },
+            units: t[3..].iter().map(|x| p(x) as u32).collect(),
+        },
+        "ADDRQV" => Op::AddRqV {
+            variants: t[1]
+                .split('|')
+                .map(|v| {
+                    let (es, tm) = v.split_once('@').unwrap();
+                    (
+                        es.split(',')
+                            .map(|e| {
+                                let (r, a) = e.split_once(':').unwrap();
+                                (p(r) as u32, p(a))
+                            })
+                            .collect(),
+                        p(tm),
+                    )
+                })
+                .collect(),
+        },
+        "BLOCK" => Op::Block { worker: p(t[1]) as u32, rq: p(t[2]) as u32, variant: p(t[3]) as u32 },
+        "VDECIDE" => Op::VDecide,
         "ADDT" => Op::AddT { task: p(t[1]), rq: p(t[2]) as u32, prio: t[3].parse().unwrap() },
         "BUSY" => Op::Busy { task: p(t[1]), worker: p(t[2]) as u32, started: t[3] == "1" },
         "CFG" => Op::Cfg { reserve: p(t[1]) as u32, max: p(t[2]) as u32 },
@@ -123,6 +151,23 @@ impl World {
                 s.set_prefill_config(*reserve, *max);
                 None
             }
+            Op::AddWT { id, tl, units } => {
+                let others: Vec<(&str, u32)> =
+                    (1..n_res).filter(|r| units[*r] > 0).map(|r| (RES_NAMES[r], units[r])).collect();
+                s.add_worker_tl(*id, units[0], &others, 0.0, *tl);
+                None
+            }
+            Op::AddRqV { variants } => {
+                let vs: Vec<(Vec<(&str, u64)>, u64)> = variants
+                    .iter()
+                    .map(|(es, t)| (es.iter().map(|(r, a)| (RES_NAMES[*r as usize], *a)).collect(), *t))
+                    .collect();
+                Some(s.add_request_variants(&vs))
+            }
+            Op::Block { worker, rq, variant } => {
+                s.block(*worker, *rq, *variant);
+                None
+            }
             _ => None,
         }
     }
@@ -186,6 +231,81 @@ impl World {
                 self.o(format!("CFG {reserve} {max}"));
                 Self::apply_setup(&mut self.s, self.n_res, op);
                 self.setup.push(op.clone());
+            }
+            Op::AddWT { id, tl, units } => {
+                if self.decided || self.workers.contains(id) || units.len() != self.n_res || units[0] == 0 {
+                    return false;
+                }
+                self.o(format!(
+                    "ADDWT {} {} {}",
+                    id,
+                    tl.map(|t| t.to_string()).unwrap_or("-".to_string()),
+                    join(units.iter(), " ")
+                ));
+                Self::apply_setup(&mut self.s, self.n_res, op);
+                self.workers.push(*id);
+                self.setup.push(op.clone());
+            }
+            Op::AddRqV { variants } => {
+                if self.decided
+                    || variants.is_empty()
+                    || variants.iter().any(|(es, _)| {
+                        es.is_empty() || es.iter().any(|(r, a)| *r as usize >= self.n_res || *a == 0)
+                    })
+                {
+                    return false;
+                }
+                self.o(format!(
+                    "ADDRQV {}",
+                    join(
+                        variants
+                            .iter()
+                            .map(|(es, t)| format!("{}@{}", join(es.iter().map(|(r, a)| format!("{r}:{a}")), ","), t)),
+                        "|"
+                    )
+                ));
+                let id = Self::apply_setup(&mut self.s, self.n_res, op).unwrap();
+                self.e(format!("RQ {id}"));
+                if id == self.n_rq {
+                    self.n_rq += 1;
+                }
+                self.setup.push(op.clone());
+            }
+            Op::Block { worker, rq, variant } => {
+                if self.decided || !self.workers.contains(worker) || *rq >= self.n_rq {
+                    return false;
+                }
+                if (*variant as usize) >= self.s.request_variants(*rq).len() {
+                    return false;
+                }
+                self.o(format!("BLOCK {worker} {rq} {variant}"));
+                Self::apply_setup(&mut self.s, self.n_res, op);
+                self.setup.push(op.clone());
+            }
+            Op::VDecide => {
+                if self.decided {
+                    return false;
+                }
+                self.decided = true;
+                self.solved = true;
+                self.mapped = true;
+                let before = self.s.workers();
+                let _ = self.s.batches();
+                let sol = self.s.solve();
+                let m = self.s.map();
+                self.o(format!(
+                    "VDECIDE optimal={} counts={} assigned={}",
+                    sol.is_optimal as u8,
+                    join(sol.sn_counts.iter().map(|(rq, v, w, c)| format!("{rq}:{v}:{w}:{c}")), ","),
+                    join(m.assigned.iter().map(|(w, t, v)| format!("{w}:{t}:{v}")), ",")
+                ));
+                for w in &before {
+                    self.e(format!("PRE {} free={}", w.id, join(w.free.iter(), ",")));
+                }
+                self.e("PLACEMENTS ok".to_string());
+                for w in self.s.workers() {
+                    self.e(format!("POST {} free={}", w.id, join(w.free.iter(), ",")));
+                }
             }
             Op::Prio { vals } => {
                 self.o(format!("PRIO {}", join(vals.iter(), " ")));
@@ -500,6 +620,68 @@ fn gen_trace(id: u64, rng: &mut Rng, tier: &str, mode: &str, out: &mut String) {
     finish(w, out);
 }
 
+/// C05 on multi-variant classes: workers with time limits, request classes with 1-3 variants whose
+/// `min_time`s differ, blocked (class, variant) pairs.  Only the decision is checked (no row comparison).
+fn gen_variants_trace(id: u64, rng: &mut Rng, out: &mut String) {
+    let n_res = if rng.chance(1, 2) { 1 } else { 2 };
+    let mut w = World::new(n_res);
+    header(&mut w.out, id, n_res, "variants");
+    let n_workers = rng.range(1, 3) as u32;
+    const LIMITS: [u64; 4] = [50, 100, 200, 1000];
+    const TIMES: [u64; 5] = [0, 10, 75, 150, 500];
+    for i in 0..n_workers {
+        let mut units = vec![rng.range(1, 8) as u32];
+        for _ in 1..n_res {
+            units.push(if rng.chance(2, 3) { rng.range(1, 4) as u32 } else { 0 });
+        }
+        let tl = if rng.chance(3, 4) { Some(*rng.pick(&LIMITS)) } else { None };
+        w.exec(&Op::AddWT { id: i + 1, tl, units });
+    }
+    let n_classes = rng.range(1, 3) as u32;
+    let mut n_variants: Vec<u32> = Vec::new();
+    for _ in 0..n_classes {
+        let nv = rng.range(1, 3);
+        let mut variants: Vec<(Vec<(u32, u64)>, u64)> = Vec::new();
+        for vi in 0..nv {
+            // typical shape: the quick variant needs more resources than the slow one
+            let cpus = if vi == 0 { rng.range(2, 8) } else { rng.range(1, 3) } * FR;
+            let mut es = vec![(0u32, cpus)];
+            if n_res > 1 && rng.chance(1, 3) {
+                es.push((1, rng.range(1, 2) * FR));
+            }
+            let t = if vi == 0 && rng.chance(2, 3) { *rng.pick(&TIMES[..2]) } else { *rng.pick(&TIMES) };
+            variants.push((es, t));
+        }
+        let before = w.n_rq;
+        w.exec(&Op::AddRqV { variants });
+        if w.n_rq > before {
+            n_variants.push(nv as u32);
+        }
+    }
+    let n_classes = w.n_rq;
+    if n_classes == 0 {
+        finish(w, out);
+        return;
+    }
+    let mut next_task = 1u64;
+    for rq in 0..n_classes {
+        for _ in 0..rng.range(1, 6) {
+            let t = (1u64 << 32) | next_task;
+            next_task += 1;
+            w.exec(&Op::AddT { task: t, rq, prio: rng.range(0, 3) as i32 });
+        }
+    }
+    if rng.chance(1, 4) {
+        let rq = rng.below(n_classes as u64) as u32;
+        let nv = n_variants.get(rq as usize).copied().unwrap_or(1);
+        let worker = w.workers[rng.below(w.workers.len() as u64) as usize];
+        w.exec(&Op::Block { worker, rq, variant: rng.below(nv as u64) as u32 });
+    }
+    w.exec(&Op::State);
+    w.exec(&Op::VDecide);
+    finish(w, out);
+}
+
 fn replay(input: &str) -> String {
     let mut out = String::new();
     let mut w: Option<World> = None;
@@ -558,10 +740,14 @@ fn main() {
             if std::env::var("HQV_SCHED_NOPIN").is_err() {
                 pin_to_one_cpu(seed);
             }
-            let mut rng = Rng::new(seed ^ if mode == "wide" { 0x5eed } else { 0 });
+            let mut rng = Rng::new(seed ^ match mode.as_str() { "wide" => 0x5eed, "variants" => 0x7a71, "exact" => 0xe8ac, _ => 0 });
             let mut out = String::new();
             for i in 0..count {
-                gen_trace(seed * 100000 + i, &mut rng, &tier, &mode, &mut out);
+                if mode == "variants" {
+                    gen_variants_trace(seed * 100000 + i, &mut rng, &mut out);
+                } else {
+                    gen_trace(seed * 100000 + i, &mut rng, &tier, &mode, &mut out);
+                }
             }
             std::fs::write(outp, out).unwrap();
         }
